@@ -106,7 +106,25 @@ func (c *ctx) elem(ctor, ns string, ps []Pat, sx string, cons []int, class strin
 	for i, p := range ps {
 		opts[i] = option(p, rec, false)
 	}
-	m, p := buildCtor(ctor, ns, opts)
+	var m *mux.ServeMux
+	var p string
+	if ctor == "redis" {
+		// half of the registrations, the element dispatched once (whatever it resolves to must not
+		// stick), the other half: the answer is that of the complete table
+		m, p = buildCtor("late", ns, opts[:len(opts)/2])
+		if p == "" {
+			p = common.Recover(func() {
+				s0 := st.Copy()
+				_ = m.HandleXMPP(&framedReader{toks: toks[1:], framing: "sep"}, &s0)
+				rec.calls, rec.k = nil, 0
+				for _, o := range opts[len(opts)/2:] {
+					o(m)
+				}
+			})
+		}
+	} else {
+		m, p = buildCtor(ctor, ns, opts)
+	}
 	if p != "" {
 		r.Line(line, "BUILD-PANIC")
 		return
@@ -838,10 +856,20 @@ func (c *ctx) runE() {
 			}
 		}
 	}
+	// redispatch: the general patterns are registered, the element is dispatched, the specific ones
+	// are registered, the element is dispatched again — every kind, both orders
+	gen := []Pat{{Kind: "m", Typ: "chat", Name: xml.Name{}}, {Kind: "p", Typ: "", Name: xml.Name{}}, {Kind: "i", Typ: "get", Name: xml.Name{}}, {Kind: "t", Name: xml.Name{Space: "urn:a"}}}
+	spec := []Pat{{Kind: "m", Typ: "chat", Name: q}, {Kind: "p", Typ: "", Name: xml.Name{Local: "x"}}, {Kind: "i", Typ: "get", Name: q}, {Kind: "t", Name: q}}
+	for _, sx := range []string{`<message type="chat"><x xmlns="urn:a"/><y xmlns="urn:b"/></message>`, `<presence><x xmlns="urn:a"/></presence>`,
+		`<iq type="get" id="e3"><x xmlns="urn:a"/></iq>`, `<iq type="set" id="e3"><x xmlns="urn:a"/></iq>`, `<x xmlns="urn:a"/>`, `<message type="chat"/>`} {
+		c.elem("redis", c08.NSClient, append(append([]Pat(nil), gen...), spec...), sx, []int{2, 9}, "redispatch")
+		c.elem("redis", c08.NSClient, append(append([]Pat(nil), spec...), gen...), sx, []int{2, 9}, "redispatch")
+		c.elem("redis", "", append(append([]Pat(nil), gen[:3]...), spec...), sx, []int{0}, "redispatch")
+	}
 	// random: random tables of all four kinds, random construction
 	ne := r.Pick(600, 8000)
 	for i := 0; i < ne; i++ {
-		ctor := ctors[rnd.Intn(4)]
+		ctor := append(ctors, "redis", "redis")[rnd.Intn(6)]
 		ns := []string{"", c08.NSClient, c08.NSServer}[rnd.Intn(3)]
 		var ps []Pat
 		for _, k := range []string{"t", "i", "m", "p"} {
